@@ -185,6 +185,7 @@ type WorldCfg struct {
 	Subscribe      [][]byte
 	Contracts      bool
 	MaxPoints      int64
+	ExtraTrunk     int // trunk blocks mined beyond InitialChain that are not announced at boot
 }
 
 type World struct {
@@ -217,6 +218,12 @@ type World struct {
 	livelock   bool
 	stopElapsed int64
 	trace []string
+	alias      map[string]string
+	trunk      []string
+	shadow     map[int]bitcoin.Hash32
+	shadowTip  int
+	shadowDone int
+	shadowGen  int
 	txOrder     []string
 	arrivals    map[string][]arrival
 	UMempool    map[string]map[string]bool
@@ -282,7 +289,13 @@ func NewWorld(cfg WorldCfg) *World {
 		b := w.Tree.mine(w.Best[len(w.Best)-1], nil, nil)
 		w.Best = append(w.Best, b.name)
 	}
-	start := w.Tree.blocks[w.Best[cfg.StartHeight]].hash
+	// extra trunk blocks the peer has mined but not made part of its announced best chain yet
+	w.trunk = append([]string(nil), w.Best...)
+	for i := 0; i < cfg.ExtraTrunk; i++ {
+		b := w.Tree.mine(w.trunk[len(w.trunk)-1], nil, nil)
+		w.trunk = append(w.trunk, b.name)
+	}
+	start := w.Tree.blocks[w.trunk[cfg.StartHeight]].hash
 	w.NodeCfg = config.Config{Net: bitcoin.MainNet, NodeAddress: trustedAddr, UserAgent: "/verif/",
 		StartHash: start, UntrustedCount: cfg.Untrusted, SafeTxDelay: cfg.SafeDelayMS, ShotgunCount: 0,
 		RequestMempool: cfg.RequestMempool, MaxRetries: 25, RetryDelay: 1000}
